@@ -1793,21 +1793,29 @@ impl VectorEngine {
                     .collect()
             },
             FilterStrategy::PostFilter => {
-                // Post-filter: search first with oversample, then filter
-                let oversample_k = top_k
+                // Post-filter: search first with oversample, then filter; when the window holds
+                // fewer than `top_k` matches although more vectors remain, widen it.
+                let mut window = top_k
                     .saturating_mul(filter_config.oversample_factor)
                     .max(top_k);
-                let candidates = self.search_in_collection(collection, query, oversample_k)?;
-                candidates
-                    .into_iter()
-                    .filter(|r| {
-                        let storage_key = Self::collection_embedding_key(collection, &r.key);
-                        self.store
-                            .get(&storage_key)
-                            .map(|t| Self::evaluate_filter(&t, filter))
-                            .unwrap_or(false)
-                    })
-                    .collect()
+                loop {
+                    let candidates = self.search_in_collection(collection, query, window)?;
+                    let exhausted = candidates.len() < window;
+                    let filtered: Vec<SearchResult> = candidates
+                        .into_iter()
+                        .filter(|r| {
+                            let storage_key = Self::collection_embedding_key(collection, &r.key);
+                            self.store
+                                .get(&storage_key)
+                                .map(|t| Self::evaluate_filter(&t, filter))
+                                .unwrap_or(false)
+                        })
+                        .collect();
+                    if filtered.len() >= top_k || exhausted {
+                        break filtered;
+                    }
+                    window = window.saturating_mul(2);
+                }
             },
         };
 
@@ -3572,18 +3580,25 @@ impl VectorEngine {
         filter: &FilterCondition,
         config: &FilteredSearchConfig,
     ) -> Result<Vec<SearchResult>> {
-        // Oversample to get more candidates
-        let oversample_k = top_k.saturating_mul(config.oversample_factor).max(top_k);
-        let candidates = self.search_similar(query, oversample_k)?;
+        // Oversample to get more candidates; when the window holds fewer than `top_k` matches
+        // although more vectors remain, widen it instead of returning a short result.
+        let mut window = top_k.saturating_mul(config.oversample_factor).max(top_k);
+        loop {
+            let candidates = self.search_similar(query, window)?;
+            let exhausted = candidates.len() < window;
 
-        // Filter candidates
-        let filtered: Vec<SearchResult> = candidates
-            .into_iter()
-            .filter(|r| self.evaluate_filter_for_key(&r.key, filter))
-            .take(top_k)
-            .collect();
+            // Filter candidates
+            let filtered: Vec<SearchResult> = candidates
+                .into_iter()
+                .filter(|r| self.evaluate_filter_for_key(&r.key, filter))
+                .take(top_k)
+                .collect();
 
-        Ok(filtered)
+            if filtered.len() >= top_k || exhausted {
+                return Ok(filtered);
+            }
+            window = window.saturating_mul(2);
+        }
     }
 
     /// Evaluate a filter condition against an embedding's metadata.
